@@ -48,7 +48,7 @@ Proof.
   intros fluid dlog. apply wf_reported.
   - cbn. lia.
   - intros i s. pose proof (oracle_translate_length i s). cbn. lia.
-  - unfold synth_cfg, synth_cfg_with, delete_checked_in_source. cbn. now rewrite C02_delete_guard_in_source.
+  - reflexivity.  (* delete_checked_in_source computes to true from the generated fact *)
 Qed.
 Print Assumptions C02_wf_reported_synth.
 
@@ -70,12 +70,14 @@ Theorem C02_example :
   forallb (fun o => match o with Obs _ v => wf_viewb v | ObsCrash _ => false end)
           (snd (run (synth_cfg false true) oracle_translate c02_example_ops)) = true /\
   existsb (fun o => match o with
-                    | Obs _ v => match v_menu v, v_preedit v with
-                                 | Some m, Some p => (0 <? mo_page_no m)%Z && (0 <? pe_sel_start p)%nat
-                                 | _, _ => false
-                                 end
+                    | Obs _ v => match v_menu v with Some m => (0 <? mo_page_no m)%Z && (0 <? mo_hl m)%Z | None => false end
+                    | ObsCrash _ => false
+                    end)
+          (snd (run (synth_cfg false true) oracle_translate c02_example_ops)) = true /\
+  existsb (fun o => match o with
+                    | Obs _ v => match v_preedit v with Some p => (0 <? pe_sel_start p)%nat | None => false end
                     | ObsCrash _ => false
                     end)
           (snd (run (synth_cfg false true) oracle_translate c02_example_ops)) = true.
-Proof. split; vm_compute; reflexivity. Qed.
+Proof. repeat split; vm_compute; reflexivity. Qed.
 Print Assumptions C02_example.
